@@ -515,6 +515,10 @@ impl ExecutableContent for Cancel {
     }
 }
 
+/// Largest delay of a \<send\> in milliseconds (1000 years). Larger values overflow the date arithmetic of the timer
+/// ("`DateTime + TimeDelta` overflowed" panicked the session thread) and are rejected with error.execution.
+pub const MAX_SEND_DELAY_MS: i64 = 1000 * 366 * 24 * 3600 * 1000;
+
 /// Implements the execution of \<send\> element.
 impl ExecutableContent for SendParameters {
     /// If unable to dispatch, place "error.communication" in internal queue
@@ -602,9 +606,9 @@ impl ExecutableContent for SendParameters {
             self.delay_ms as i64
         };
 
-        if delay_ms < 0 {
+        if delay_ms < 0 || delay_ms > MAX_SEND_DELAY_MS {
             // Delay is invalid -> Abort
-            error!("Send: delay {} is negative", self.delay_expr);
+            error!("Send: delay {} is negative or too large", self.delay_expr);
             datamodel.internal_error_execution_for_event(&send_id, &fsm.caller_invoke_id);
             return false;
         }
